@@ -31,7 +31,8 @@ var builtin = []string{
 
 // isIDValid checks if a name is a valid identifier in Go.
 func isIDValid(name string) bool {
-	return idRegex.MatchString(name) && !generic.AnyMatch(builtin, func(s string) bool {
+	// The blank identifier has the shape of an identifier but cannot name a package.
+	return idRegex.MatchString(name) && name != "_" && !generic.AnyMatch(builtin, func(s string) bool {
 		return s == name
 	})
 }
